@@ -150,6 +150,29 @@ structure Transmute where
   /-- leftmost identifier of the operand (`root` for `root.ptr`), `""` if not a place path -/
   operandBase : String
   fnRet : Ty
+  /-- last path segment of `fn_`, and the parameter names of the enclosing fn (`self` first when it
+  has a receiver) -/
+  fnLast : String := ""
+  fnParams : List String := []
+  deriving Repr, Inhabited
+
+/-- A place where a private `unsafe fn` holding (or leading to) a re-branding site is called —
+`isCall = false`: merely mentioned (taken as a value, named inside a macro), which cannot be
+followed.  `args` / `argBases` list the receiver first for a method call, so that they line up with
+the callee's `fnParams`. -/
+structure CallSite where
+  file : String
+  caller : String
+  callerLast : String
+  callerUnsafe : Bool
+  callerPub : Bool
+  callerParams : List String
+  callee : String
+  calleePath : String
+  args : List String
+  argBases : List String
+  guards : List Guard
+  isCall : Bool
   deriving Repr, Inhabited
 
 structure AutoImpl where
@@ -166,6 +189,7 @@ structure Table where
   callbacks : List Callback
   collectImpls : List CollectImpl
   transmutes : List Transmute
+  callSites : List CallSite := []
   autoImpls : List AutoImpl
   /-- items the translator could not classify (fail closed: must be empty) -/
   unclassified : List String
@@ -682,8 +706,65 @@ def Ty.isRaw : Ty → Bool
 use). -/
 def Transmute.rawOnly (t : Transmute) : Bool := t.castToRaw && t.fnRet.isRaw
 
-def Transmute.ok (t : Transmute) : Bool :=
-  t.introduces.isEmpty || t.fnUnsafe || t.guardedByContains || t.rawOnly
+/-! ### Re-branding sites, lifted through private helpers
+
+A re-branding site is a transmute that introduces a lifetime (`Gc<'static, _>` ↦ `Gc<'gc, _>`).
+What makes it sound is *where the value came from*: it must have passed the identity check
+`self.contains(<the handle>)` of the set that hands it out.  The rule is structural, not tied to
+function names or to the number of sites:
+
+* the site is dominated by `if self.contains(v)`, `v` being the variable whose field is re-branded; or
+* the site is in a `pub unsafe fn` (its contract is the caller's, and safe code cannot call it); or
+* the site is in a private `unsafe fn` helper, `v` is one of the helper's parameters, and **every**
+  place in the crate where a function of that name is called passes for that parameter a variable
+  that is (recursively, by the same rule) covered at the call site.  A helper that is mentioned
+  without being called, or called with something that is not a plain variable path, is not covered.
+
+A safe function must do the check itself.  `blame` returns the functions in which a check is
+missing (empty = covered); the recursion follows the call graph upwards with fuel `cgFuel` (deeper
+chains are not covered: fail closed). -/
+
+/-- Is the value `base` identity-checked by one of the enclosing `if`s? -/
+def guardedBy (guards : List Guard) (base : String) : Bool :=
+  base != "" && guards.any (fun g => g.thenBranch && g.cond == "self.contains(" ++ base ++ ")")
+
+def indexOf? (xs : List String) (x : String) : Option Nat :=
+  match xs with
+  | [] => none
+  | y :: ys => if y == x then some 0 else (indexOf? ys x).map (· + 1)
+
+/-- Functions in which an identity check of `base` is missing, for a site inside function
+`fnQual` (last segment `fnLast`, `unsafe` / `pub` flags, parameter names) under `guards`. -/
+def blame (sites : List CallSite) : Nat → (fnQual fnLast : String) → (fnUnsafe fnPub : Bool) →
+    (fnParams : List String) → (base : String) → (guards : List Guard) → List String
+  | 0, fnQual, _, _, _, _, base, guards => if guardedBy guards base then [] else [fnQual]
+  | fuel + 1, fnQual, fnLast, fnUnsafe, fnPub, fnParams, base, guards =>
+      if guardedBy guards base then []
+      else if !fnUnsafe then [fnQual]
+      else if fnPub then []
+      else match indexOf? fnParams base with
+        | none => [fnQual]
+        | some i =>
+          (sites.filter (fun cs => cs.callee == fnLast)).flatMap (fun cs =>
+            if !cs.isCall then [cs.caller ++ " (mentions " ++ fnLast ++ " without calling it)"]
+            else match cs.argBases[i]? with
+              | none => [cs.caller]
+              | some b =>
+                  if b == "" then [cs.caller]
+                  else blame sites fuel cs.caller cs.callerLast cs.callerUnsafe cs.callerPub
+                         cs.callerParams b cs.guards)
+
+/-- Depth to which helper chains are followed. -/
+def cgFuel : Nat := 6
+
+/-- Functions through which the re-branding site `t` is reachable without an identity check. -/
+def Table.blameOf (tbl : Table) (t : Transmute) : List String :=
+  if t.introduces.isEmpty || t.rawOnly then []
+  else blame tbl.callSites cgFuel t.fn_ t.fnLast t.fnUnsafe t.fnPub t.fnParams t.operandBase t.guards
+
+/-- The re-branding site is covered (see above); transmutes that introduce no lifetime, or whose
+result only exists as a returned raw pointer, need no cover. -/
+def Table.transmuteOk (tbl : Table) (t : Transmute) : Bool := (tbl.blameOf t).isEmpty
 
 /-! ## Whole-table checks (the hypotheses of the table theorems in `Props/C12.lean`) -/
 
@@ -756,8 +837,18 @@ def Table.violCollect (tbl : Table) : List String :=
     (fun ci => ci.selfTy.head ++ " @ " ++ ci.file)
 
 def Table.violTransmutes (tbl : Table) : List String :=
-  ((tbl.transmutesIn "dynamic_roots.rs").filter (fun t => !t.ok)).map
-    (fun t => t.fn_ ++ ": transmute(" ++ t.operand ++ ")")
+  ((tbl.transmutesIn "dynamic_roots.rs").filter (fun t => !tbl.transmuteOk t)).map
+    (fun t => t.fn_ ++ ": transmute(" ++ t.operand ++ ") unchecked in " ++
+      ", ".intercalate (tbl.blameOf t))
+
+/-- Re-branding sites of `dynamic_roots.rs` that need (and have) a cover, and the number of places
+where the identity check is actually applied (at a site or at a call of a helper). -/
+def Table.rebrandSites (tbl : Table) : List Transmute :=
+  (tbl.transmutesIn "dynamic_roots.rs").filter (fun t => !t.introduces.isEmpty && !t.rawOnly)
+
+def Table.identityChecks (tbl : Table) : Nat :=
+  ((tbl.transmutesIn "dynamic_roots.rs").filter (fun t => !t.introduces.isEmpty && t.guardedByContains)).length +
+  (tbl.callSites.filter (fun cs => cs.isCall && cs.argBases.any (fun b => guardedBy cs.guards b))).length
 
 def Table.violAutoImpls (tbl : Table) : List String :=
   (tbl.autoImpls.filter (fun i => !i.negative)).map
